@@ -259,6 +259,7 @@ func (_this *RulesEventReceiver) OnMedia(mediaType string, value []byte) {
 	if len(mediaType) > 0xffffffff {
 		panic(fmt.Errorf("media type is too long (%v bytes)", len(mediaType)))
 	}
+	_this.context.ValidateContentsStringlike(mediaType)
 	_this.context.NotifyNewObject(true)
 	_this.context.CurrentEntry.Rule.OnArray(&_this.context, events.ArrayTypeMedia, uint64(len(value)), value)
 	_this.receiver.OnMedia(mediaType, value)
@@ -284,6 +285,7 @@ func (_this *RulesEventReceiver) OnArrayBegin(arrayType events.ArrayType) {
 }
 
 func (_this *RulesEventReceiver) OnMediaBegin(mediaType string) {
+	_this.context.ValidateContentsStringlike(mediaType)
 	_this.context.NotifyNewObject(true)
 	_this.context.CurrentEntry.Rule.OnArrayBegin(&_this.context, events.ArrayTypeMedia)
 	_this.receiver.OnMediaBegin(mediaType)
